@@ -567,6 +567,7 @@ func ParseURI(uri SIPStr, puri *PsipURI) (ErrorURI, int) {
 					puri.Host.Reset()
 					puri.Port.Reset()
 					puri.PortNo = 0
+					portNo = 0 // restart: forget the digits of a possible port seen so far
 					puri.Params.Reset()
 					puri.Headers.Reset()
 				} else {
@@ -628,6 +629,7 @@ func ParseURI(uri SIPStr, puri *PsipURI) (ErrorURI, int) {
 					puri.Host.Reset()
 					puri.Port.Reset()
 					puri.PortNo = 0
+					portNo = 0 // restart: forget the digits of a possible port seen so far
 					puri.Params.Reset()
 					puri.Headers.Reset()
 				} else {
